@@ -596,6 +596,7 @@ func (x *Exec) step(st *State, ins ssa.Instruction) {
 			}
 		} else {
 			x.storePtr(st, r, t, x.zeroVal(t))
+			x.initGhost(st, t, r)
 		}
 		x.setVal(st, ins, TV{r, ins.Type()})
 		if ins.Comment != "" && !strings.Contains(ins.Comment, " ") && ins.Comment != "varargs" && ins.Comment != "complit" && ins.Comment != "new" {
@@ -772,6 +773,47 @@ func (x *Exec) step(st *State, ins ssa.Instruction) {
 		st.dead = true
 	default:
 		panic(unsupported(fmt.Sprintf("instruction %T (%s) in %s", ins, ins, fnShort(fr.fn))))
+	}
+}
+
+// initGhost gives the ghost fields of a freshly allocated object their default values
+// (empty sequence / empty set / nil / 0), recursively for embedded structs.
+func (x *Exec) initGhost(st *State, t types.Type, obj string) {
+	u, ok := under(t).(*types.Struct)
+	if !ok {
+		return
+	}
+	if n := originNamed(t); n != nil {
+		for _, g := range x.P.ghosts {
+			if g.Recv != n.Obj().Name() || (n.Obj().Pkg() != nil && g.Pkg != n.Obj().Pkg().Path()) {
+				continue
+			}
+			tctx := x.P.typeCtxForGhost(g, t, nil)
+			gt := x.P.resolveTypeExpr(g.Ty, tctx)
+			base := "G%" + typeKey(t) + "%" + g.Name
+			x.ghostKeys(t, g, tctx)
+			switch gt.Kind {
+			case "seq":
+				x.hset(st, base+"#l", store(x.hget(st.H, base+"#l"), obj, "0"))
+			case "set":
+				x.hset(st, base, store(x.hget(st.H, base), obj, "((as const (Array "+sortOf(gt.Elem.Go)+" Bool)) false)"))
+			default:
+				if _, isMap := under(gt.Go).(*types.Map); isMap {
+					continue
+				}
+				z := "0"
+				if isBool(gt.Go) {
+					z = "false"
+				}
+				x.hset(st, base, store(x.hget(st.H, base), obj, z))
+			}
+		}
+	}
+	for i := 0; i < u.NumFields(); i++ {
+		f := u.Field(i)
+		if isStruct(f.Type()) {
+			x.initGhost(st, f.Type(), x.subObj(t, f.Name(), obj))
+		}
 	}
 }
 
